@@ -246,5 +246,6 @@ def run(ctx):
         ok = len(render_calls) == 1 and tr.nodes[render_calls[0]].get("fd") == entry.id
         r_pc.ob(tr.sig + tag, "renders through TemplateCore::Render(const Array<TagBit> &, ...)", ok and entry.params[0]["t"].startswith("const "),
                 "the cache parameter of the renderer is `%s`" % entry.params[0]["t"], tr.loc(render_calls[0]) if render_calls else "")
-    rules += [r_in, r_st, r_ap, r_cx, r_pc]
+    from rules.common import rule_copy_kind
+    rules += [r_in, r_st, r_ap, r_cx, r_pc, rule_copy_kind(ctx, ctx.pattern())]
     return rules
